@@ -1102,6 +1102,22 @@ M('C02', 'ibinary_blockwise takes the dtype from the first block (round-4 seed a
 """, """            self.dtype = self._data[0].dtype
 """, 'DTYPE-blocks')
 
+M('C05', 'qr_li returns before the second factorisation (round-4 seed b)', 'tenpy/tools/math.py',
+  "    R = R[:, misc.inverse_permutation(P)]\n", "    R = R[:, misc.inverse_permutation(P)]\n    if np.all(keep):\n        return Q, R\n",
+  'FACT-triangular')
+M('C05', 'speigs: fallback search with its own loop variable, qi left stale (round-4 seed a)', NPC,
+  """        for qi in range(a.legs[0].block_number):
+            if np.all(a.chinfo.make_valid(a.legs[0].get_charge(qi)) == charge_sector):
+                sl = a.legs[0].slices
+                block_size = sl[qi + 1] - sl[qi]
+                break""", """        sl = a.legs[0].slices
+        for j in range(a.legs[0].block_number):
+            if np.all(a.chinfo.make_valid(a.legs[0].get_charge(j)) == charge_sector):
+                block_size = sl[j + 1] - sl[j]
+                break""", 'FACT-search-flag')
+M('C03', 'init_LP relabels the boundary tensor of the ket in place (round-4 seed a)', MPS,
+  "init_LP = U_ket.replace_label('vL', 'vR*')", "init_LP = U_ket.ireplace_label('vL', 'vR*')", 'OWN-borrowed')
+
 # ---------------------------------------------------------------- C16 / C19
 M('C16', 'GMRES restart: relative residual norm used for normalisation (round-3 seed b)', KRY,
   """        self.total_error.append([npc.norm(self.rs[-1]) / self.b_norm])
